@@ -613,10 +613,15 @@ package router
 //@ func newMetricsReg() (reg *prometheus.Registry)
 //@   trusted
 //@   modifies nothing
+// initResourceLimiter: a configured limit is installed (with the configured burst and mask lengths); the result
+// is usable by AllowN.
 //@ func initResourceLimiter(cfg LimiterConfig) (l *resourceLimiter)
-//@   trusted
+//@   props C15
 //@   modifies nothing
-//@   ensures l != nil
+//@   ensures l != nil && fresh(l) && limOK(l)
+//@   ensures [C15:configured-limits-installed] (cfg.GlobalLimit > 0) == (l.global != nil) && (cfg.Client.Limit > 0) == (l.cl != nil)
+//@   callsite NewClientLimiter?: [C15:configured-client-limit] arg0.Burst == cfg.Client.Burst && arg0.V4Mask == cfg.Client.V4Mask && arg0.V6Mask == cfg.Client.V6Mask
+//@   callsite NewLimiter?: [C15:configured-global-limit] arg1 == cfg.GlobalLimit
 //@ func (r *router) initCache(cfg *CacheConfig) (c *cacheCtl, err error)
 //@   trusted
 //@   modifies nothing
